@@ -1162,6 +1162,57 @@ def corpus(check: Check) -> None:
 
 # ------------------------------------------------------------------------------------------------ T17 number formatting
 def number_formatting(check: Check) -> None:
+    """T17, by interpretation where the interpreter can follow `Op.str` (the shape rule below is the fallback)."""
+    if not number_formatting_semantics(check):
+        number_formatting_shape(check)
+
+
+def number_formatting_semantics(check: Check, rule: str = "T17") -> bool:
+    """`Op.str(x)` interpreted (sa/objexec.py) for a number, a 0-d, 1-d and 2-d array, a list and a tuple of numbers, an integer and a text,
+    under two values of `settings.decimals` set between the calls: every number is printed fixed-point with exactly the decimals in force when it
+    is printed, the elements of a sequence separated by the delimiter (rows by newlines), integers and texts as they are."""
+    from ..absexec import Internal, Raised, Unknown
+    from ..objexec import Arr, Decimals
+    from .roundtrip_sem import E0, new_exec
+
+    p = check.program
+    fn = p.func("Operation.str")
+    check.analysed(fn)
+    why = None
+    n = 0
+    try:
+        ex = new_exec(p)
+        settings = ex.globals["settings"]
+        for d in (3, 5, 0):
+            ex.decimals = Decimals(d)
+            settings.fields["decimals"] = ex.decimals
+            fmt = lambda v, d=d: format(v, f".{d}f")  # noqa: E731
+            cases = [(0.5, fmt(0.5)), (-1.25, fmt(-1.25)), (float("inf"), "inf"), (float("nan"), "nan"), (Arr(0.125, 0), fmt(0.125)), (Arr([0.5, 0.25], 1), f"{fmt(0.5)} {fmt(0.25)}"),
+                     (Arr([[0.5, 0.25], [1.0, 2.0]], 2), f"{fmt(0.5)} {fmt(0.25)}\n{fmt(1.0)} {fmt(2.0)}"), ([0.5, 0.25], f"{fmt(0.5)} {fmt(0.25)}"), ((0.5,), fmt(0.5)),
+                     (7, "7"), ("text", "text"), ([], "")]
+            for x, want in cases:
+                n += 1
+                try:
+                    got = ex.invoke(fn, [x], {}, E0)
+                except (Raised, Internal) as err:
+                    why = why or f"Op.str({x!r}) with decimals={d} ends with {err.cls}"
+                    continue
+                if got != want:
+                    why = why or (f"Op.str({x!r}) with settings.decimals = {d} is {got!r}, specified {want!r}: every number is printed fixed-point with the decimals in force "
+                                  "when it is printed (the importer reads it back with the library float)")
+            n += 1
+            got = ex.invoke(fn, [[0.5, 0.25]], {"delimiter": ", "}, E0)
+            if got != f"{fmt(0.5)}, {fmt(0.25)}":
+                why = why or f"Op.str([0.5, 0.25], delimiter=', ') with decimals={d} is {got!r}"
+    except Unknown as u:
+        check.notes.append(f"{rule}: Op.str is outside the interpreter's model ({u}); decided on the shape of the code")
+        return False
+    check.require(why is None, rule, "Operation.str/fixed-point-decimals", f"every number Op.str formats is fixed-point with the decimals in force at the call ({n} values x settings)"
+                  if why is None else why, loc(fn), exhaustive=True, cases=n)
+    return True
+
+
+def number_formatting_shape(check: Check) -> None:
     """T17: every number that `Op.str` formats itself is printed fixed-point with exactly `settings.decimals` decimals, read when the
     number is printed: each formatted value with a format specification inside Op.str has the specification `.{settings.decimals}f`
     (also through a temporary), and the fallback for higher-dimensional arrays passes precision=settings.decimals, floatmode="fixed".
